@@ -26,6 +26,19 @@ from ..core.types import Signal, ActionProtein, ApprovalToken
 from ..state.metabolism import ATP_Store
 
 
+def _describe(value: Any) -> str:
+    """Text of ``value`` for a reason or console message; never raises.
+
+    Exceptions raised by agents and the payloads agents hand back come from
+    outside the loop (``ActionProtein.payload`` is ``Any``): a ``__str__`` that
+    raises must not keep the loop from answering or from counting the outcome.
+    """
+    try:
+        return str(value)
+    except Exception:
+        return f"<unprintable {type(value).__name__}>"
+
+
 class GateLogic(Enum):
     """Logic gate types for combining agent outputs."""
     AND = "and"           # All must agree
@@ -232,7 +245,7 @@ class CoherentFeedForwardLoop:
                 success=False,
                 action="ERROR",
                 blocked=True,
-                block_reason=f"Agent error: {e}",
+                block_reason=f"Agent error: {_describe(e)}",
                 processing_time_ms=(time.time() - start_time) * 1000,
                 gate_logic=self.gate_logic
             )
